@@ -113,6 +113,7 @@ type Obligation struct {
 	Blk     *ssa.BasicBlock
 	File    string
 	Candidate bool // model comes from the ground (quantifier-free) weakening
+	Extra     []pendFact // instances of recorded hypotheses at the goal's skolem constants
 }
 
 type Ctx struct {
@@ -126,6 +127,7 @@ type Ctx struct {
 	ftags []string
 	fblks []*ssa.BasicBlock
 	curTag string
+	pend   []pendFact // hypothesis instances produced while building the current goal
 	curBlk *ssa.BasicBlock
 	reachCache map[[2]*ssa.BasicBlock]bool
 	reachMu sync.Mutex
@@ -512,6 +514,8 @@ func sortedKeys(m map[string]string) []string {
 // qhyp: an assumed universally quantified clause, kept in structured form so that it can be
 // instantiated at the skolem constants of a quantified goal (E-matching cannot do this when the
 // hypothesis and the goal talk about different heap versions).
+type pendFact struct{ tag, text string }
+
 type qhyp struct {
 	tag   string
 	vars  []Param
@@ -573,6 +577,7 @@ func (c *Ctx) skolemGoal(e *Expr, ev *EvalCtx, reach string) (string, error) {
 	n := *ev
 	n.mode = 1
 	n.reach = reach
+	c.pend = nil
 	return n.evalBool(e)
 }
 
@@ -618,10 +623,14 @@ func (c *Ctx) skolemiseForall(e *Expr, ev *EvalCtx) (string, error) {
 		if err != nil {
 			continue
 		}
-		saved := c.curTag
-		c.curTag = h.tag
-		c.assume(h.reach, ht)
-		c.curTag = saved
+		// instances belong to the goal being built, not to the shared fact list (see oblige)
+		if ht != "true" && ht != "" {
+			ft := ht
+			if h.reach != "true" {
+				ft = "(=> " + h.reach + " " + ht + ")"
+			}
+			c.pend = append(c.pend, pendFact{tag: h.tag, text: ft})
+		}
 	}
 	return t, nil
 }
